@@ -5,6 +5,7 @@ package main
 
 import (
 	"fmt"
+	"go/token"
 	"go/types"
 	"regexp"
 	"sort"
@@ -1887,6 +1888,83 @@ func ruleBOUNDUNIT(c *Ctx, r *Report) {
 		}
 	}
 	r.floor(rule, "numeric bound parsers", units, 1)
+	// the text a bound parser is given is the serialised bound itself: a part of the split boundary text with
+	// only blanks trimmed. A quoted bound ('007') keeps its quotes and therefore never reads as a number; text
+	// that had its quotes removed first would turn a quoted string range into a numeric comparison.
+	var plain func(v ssa.Value, e *env, depth int) string
+	plain = func(v ssa.Value, e *env, depth int) string {
+		if depth > 12 {
+			return "too deep"
+		}
+		rv, re := c.resolveE(v, e)
+		switch x := rv.(type) {
+		case *ssa.Parameter:
+			return ""
+		case *ssa.Phi:
+			for _, ed := range x.Edges {
+				if w := plain(ed, re, depth+1); w != "" {
+					return w
+				}
+			}
+			return ""
+		case *ssa.Slice:
+			return plain(x.X, re, depth+1)
+		case *ssa.UnOp:
+			if x.Op == token.MUL {
+				if ia, ok := x.X.(*ssa.IndexAddr); ok {
+					return plain(ia.X, re, depth+1)
+				}
+			}
+		case *ssa.Index:
+			return plain(x.X, re, depth+1)
+		case *ssa.Extract:
+			return plain(x.Tuple, re, depth+1)
+		case *ssa.Call:
+			switch name := calleeFullName(x); name {
+			case "strings.TrimSpace", "strings.Split", "strings.SplitN", "strings.Cut", "strings.Fields":
+				return plain(x.Call.Args[0], re, depth+1)
+			case "strings.Trim", "strings.TrimLeft", "strings.TrimRight", "strings.TrimPrefix", "strings.TrimSuffix":
+				cut, ok := constStringVal(c.resolve(x.Call.Args[1], re))
+				if !ok || strings.ContainsAny(cut, "'\"") {
+					return name + " with the cutset " + c.key(x.Call.Args[1], re) + " (quotes are part of a string bound)"
+				}
+				return plain(x.Call.Args[0], re, depth+1)
+			default:
+				return "the result of " + c.key(rv, re)
+			}
+		}
+		return c.key(rv, re)
+	}
+	nArgs := 0
+	for _, fn := range c.rangeClosure(pt, dr) {
+		if !isStringType(resultType0(fn)) {
+			continue
+		}
+		paths, _ := c.enumPathsInl(fn, 20000)
+		seen := map[*ssa.Call]bool{}
+		for _, p := range paths {
+			for _, pc := range p.Calls {
+				g := pc.Call.Call.StaticCallee()
+				if g == nil || !c.semanticUnit(g) || seen[pc.Call] {
+					continue
+				}
+				seen[pc.Call] = true
+				for i, a := range pc.Call.Call.Args {
+					if !isStringType(a.Type()) {
+						continue
+					}
+					nArgs++
+					key := fmt.Sprintf("%s|%s|arg%d", fnName(fn), fnName(g), i)
+					if w := plain(a, p.Env, 0); w != "" {
+						r.bad(rule, key, c.instrPos(pc.Call), fmt.Sprintf("%s hands %s a text that is not the serialised range end itself (%s): only blanks may be trimmed from a part of the split boundary text — with its quotes removed a quoted string bound such as \"007\" reads as a number and the range is rendered numerically", fnName(fn), fnName(g), w))
+					} else {
+						r.ok(rule, key, c.instrPos(pc.Call), "a part of the split boundary text, blanks trimmed")
+					}
+				}
+			}
+		}
+	}
+	r.floor(rule, "texts handed to the bound parsers", nArgs, 2)
 }
 
 // SPLIT-SAFE (C02/C03): the range functions re-split the already serialised boundary text. That is
